@@ -425,18 +425,21 @@ theorem appSend_keeps (token : Bytes → Bytes) (ext : Option Bytes) (s : S) (m 
             have hk := hsw s (.message p) rfl rfl rfl rfl
             exact ⟨hk.1, hk.2.1, hk.2.2.1, fun h => by rw [← hk.2.2.2]; exact h⟩
         · exact ⟨rfl, hok, rfl, id⟩
-      | close code =>
+      | close code reason =>
         simp only []
         split
         · exact ⟨rfl, hok, rfl, fun h => by simp at h⟩
         · split
           · exact ⟨rfl, hok, rfl, id⟩
-          · have hk := hsw { s with st := .closed } (.close (code.getD 1000)) rfl rfl rfl rfl
-            rw [show sendWs { s with st := .closed } (.close (code.getD 1000)) =
-              ((sendWs { s with st := .closed } (.close (code.getD 1000))).1, (sendWs { s with st := .closed } (.close (code.getD 1000))).2.1,
-               (sendWs { s with st := .closed } (.close (code.getD 1000))).2.2) from rfl]
-            simp only []
-            split <;> exact ⟨hk.1, hk.2.1, hk.2.2.1, fun h => by rw [hk.2.2.2] at h; simp at h⟩
+          · split
+            · exact ⟨rfl, hok, rfl, id⟩          -- the close frame cannot be built: the stream is untouched
+            · rename_i k _
+              have hk := hsw { s with st := .closed } (.close k) rfl rfl rfl rfl
+              rw [show sendWs { s with st := .closed } (.close k) =
+                ((sendWs { s with st := .closed } (.close k)).1, (sendWs { s with st := .closed } (.close k)).2.1,
+                 (sendWs { s with st := .closed } (.close k)).2.2) from rfl]
+              simp only []
+              split <;> exact ⟨hk.1, hk.2.1, hk.2.2.1, fun h => by rw [hk.2.2.2] at h; simp at h⟩
       | other => exact ⟨rfl, hok, rfl, id⟩
 
 /-- the stream as it stands when a protocol-level send raised has the same properties -/
